@@ -27,7 +27,10 @@ pub enum Step {
 /// Read half replaying a fixed script; after the script it reports end of stream.
 #[derive(Debug)]
 pub struct ScriptRead {
-    pub steps: [Step; STEPS],
+    /// The script lives outside (on the harness' stack): the read half itself holds only concrete
+    /// scalars, so that moving it into a connection does not turn its counters into byte-extracts
+    /// of a partly symbolic object.
+    pub steps: *const [Step; STEPS],
     pub nsteps: usize,
     pub next: usize,
     /// Bytes actually delivered by step k (0 for non-data steps).
@@ -37,10 +40,14 @@ pub struct ScriptRead {
     pub polls: usize,
     /// Space offered by the most recent poll.
     pub last_space: usize,
+    /// What a read beyond the script does: `false` = end of stream (`Ok(0)`); `true` = the
+    /// exploration ends there (paths that read more than the scripted number of times are outside
+    /// the harness bound and are cut with an assumption).
+    pub cut_after_script: bool,
 }
 
 impl ScriptRead {
-    pub fn new(steps: [Step; STEPS], nsteps: usize) -> Self {
+    pub fn new(steps: &[Step; STEPS], nsteps: usize) -> Self {
         ScriptRead {
             steps,
             nsteps,
@@ -49,31 +56,64 @@ impl ScriptRead {
             calls: 0,
             polls: 0,
             last_space: 0,
+            cut_after_script: false,
         }
     }
 
     pub fn idle() -> Self {
-        Self::new([Step::Eof; STEPS], 0)
+        static IDLE: [Step; STEPS] = [Step::Eof; STEPS];
+        Self::new(&IDLE, 0)
+    }
+
+    pub fn step(&self, k: usize) -> Step {
+        unsafe { (*self.steps)[k] }
     }
 }
 
-pub struct ReadFut<'a> {
-    s: &'a mut ScriptRead,
-    buf: &'a mut [u8],
+/// Global poll budget of the scripted read halves. Symbolic execution keeps unrolling the
+/// connection's read loop as long as it cannot see *syntactically* that the transport is exhausted;
+/// values that travel through a coroutine's saved state are not constant-propagated by CBMC, so the
+/// bound is kept in plain statics (accessed by name): once more than `READ_POLL_LIMIT` polls have
+/// been made the path is cut. Harnesses set the limit to the number of polls their script can
+/// absorb (scripted steps + the end-of-stream poll), so no in-bound behaviour is lost; a
+/// connection that polls the transport more often than that is cut, not passed: every harness
+/// asserts the number of script steps consumed.
+pub static mut READ_POLLS: usize = 0;
+pub static mut READ_POLL_LIMIT: usize = usize::MAX;
+
+pub fn set_read_poll_limit(n: usize) {
+    unsafe {
+        READ_POLLS = 0;
+        READ_POLL_LIMIT = n;
+    }
 }
 
-impl Future for ReadFut<'_> {
+pub struct ReadFut<'a, 'b> {
+    s: &'a mut ScriptRead,
+    buf: &'b mut [u8],
+}
+
+impl Future for ReadFut<'_, '_> {
     type Output = zlink_core::Result<usize>;
     fn poll(self: Pin<&mut Self>, cx: &mut Context<'_>) -> Poll<Self::Output> {
         let this = self.get_mut();
+        unsafe {
+            READ_POLLS += 1;
+            if READ_POLLS > READ_POLL_LIMIT {
+                crate::nd::cut_path();
+            }
+        }
         this.s.polls += 1;
         this.s.last_space = this.buf.len();
         if this.s.next >= this.s.nsteps {
+            if this.s.cut_after_script {
+                crate::nd::cut_path();
+            }
             return Poll::Ready(Ok(0));
         }
         let k = this.s.next;
         this.s.next += 1;
-        match this.s.steps[k] {
+        match this.s.step(k) {
             Step::Pending => {
                 cx.waker().wake_by_ref();
                 Poll::Pending
@@ -98,9 +138,11 @@ impl Future for ReadFut<'_> {
 }
 
 impl ReadHalf for ScriptRead {
-    async fn read(&mut self, buf: &mut [u8]) -> zlink_core::Result<usize> {
+    // A hand-written future, not an `async fn`: a coroutine nested inside the connection's own
+    // coroutine made CBMC's encoding explode (8 GB within a minute for a 8-byte flush).
+    fn read<'s, 'b>(&'s mut self, buf: &'b mut [u8]) -> impl Future<Output = zlink_core::Result<usize>> + use<'s, 'b> {
         self.calls += 1;
-        ReadFut { s: self, buf }.await
+        ReadFut { s: self, buf }
     }
 }
 
@@ -131,13 +173,13 @@ impl CaptureWrite {
     }
 }
 
-pub struct WriteFut<'a> {
+pub struct WriteFut<'a, 'b> {
     s: &'a mut CaptureWrite,
-    buf: &'a [u8],
+    buf: &'b [u8],
     pend_left: usize,
 }
 
-impl Future for WriteFut<'_> {
+impl Future for WriteFut<'_, '_> {
     type Output = zlink_core::Result<()>;
     fn poll(self: Pin<&mut Self>, cx: &mut Context<'_>) -> Poll<Self::Output> {
         let this = self.get_mut();
@@ -166,14 +208,13 @@ impl Future for WriteFut<'_> {
 }
 
 impl WriteHalf for CaptureWrite {
-    async fn write(&mut self, buf: &[u8]) -> zlink_core::Result<()> {
+    fn write<'s, 'b>(&'s mut self, buf: &'b [u8]) -> impl Future<Output = zlink_core::Result<()>> + use<'s, 'b> {
         let pend_left = self.pend;
         WriteFut {
             s: self,
             buf,
             pend_left,
         }
-        .await
     }
 }
 
